@@ -5,11 +5,20 @@ import (
 	"go/ast"
 	"go/parser"
 	"go/token"
+	"os"
 	"path/filepath"
 	"strings"
 )
 
 func init() { corrs["C19"] = corrC19 }
+
+// repoRoot is /repo; the mutant lab (bin/lab.sh) points VERIF_REPO at a scratch worktree.
+func repoRoot() string {
+	if r := os.Getenv("VERIF_REPO"); r != "" {
+		return r
+	}
+	return "/repo"
+}
 
 // corrC19: C19 has no run-time correspondence (timing is not measured). The generator re-translates the ten
 // Check bodies on every run; this step reports what was translated and runs a source-level search for the
@@ -17,7 +26,7 @@ func init() { corrs["C19"] = corrC19 }
 func corrC19(outDir string, seed uint64, tier string, replay string) *report {
 	rep := newReport("C19", seed, tier)
 	for _, name := range []string{"argon2", "bcrypt", "des", "desext", "md5", "nthash", "sha1", "sha256", "sha512", "sunmd5"} {
-		files, _ := filepath.Glob(filepath.Join("/repo", name, "*.go"))
+		files, _ := filepath.Glob(filepath.Join(repoRoot(), name, "*.go"))
 		found := false
 		for _, fn := range files {
 			if strings.HasSuffix(fn, "_test.go") {
